@@ -114,8 +114,8 @@ def params_obs(o, only_saved=True):
 
     out = {}
     for pd in o.p.paramDefs:
-        if only_saved and (not pd.saveToDB or pd.assigned == parameters.NEVER):
-            continue
+        if only_saved and not pd.saveToDB:
+            continue  # (never-assigned definitions are included: they hold their default on both sides of any comparison)
         if pd.name in ("serialNum",):
             continue
         if not hasattr(o.p, pd.fieldName):
